@@ -184,6 +184,9 @@ func (v *fieldValue[T]) Value() any {
 
 func (v *fieldValue[T]) Equal(other any) bool {
 	if tOther, ok := other.(T); ok {
+		if reflect.TypeOf(v.value) != reflect.TypeOf(other) {
+			return false
+		}
 		switch tv := any(v.value).(type) {
 		case string:
 			return tv == other.(string)
@@ -224,7 +227,11 @@ func (v *fieldValue[T]) Equal(other any) bool {
 		case []byte:
 			return bytes.Equal(tv, other.([]byte))
 		case *url.URL:
-			return tv.String() == other.(*url.URL).String()
+			o := other.(*url.URL)
+			if tv == nil || o == nil {
+				return tv == o
+			}
+			return tv.String() == o.String()
 		default:
 			vVal := reflect.ValueOf(v.value)
 			otherVal := reflect.ValueOf(tOther)
